@@ -207,6 +207,16 @@ Definition class_of_tag (reg : registry) (t : ustring) : option cls :=
   | _ => None
   end.
 
+(* descent into the registered direct subclasses, parametrised by the recursive call *)
+Fixpoint rec_subs (recsub : ustring -> result RecResult) (l : list cls) (acc : list ty) (causes : list rerr)
+  : result (list ty * list rerr) :=
+  match l with
+  | [] => Ok (acc, causes)
+  | d :: r =>
+      res <- recsub (c_name d) ;;
+      rec_subs recsub r (ty_union acc (fst res)) (if is_nil (fst res) then causes ++ [snd res] else causes)
+  end.
+
 Section rec.
   Variable o : oracle.
   Variable reg : registry.
@@ -253,13 +263,7 @@ Section rec.
         | None => Err ERecognition
         | Some k =>
             (* registered direct subclasses first *)
-            subs <- (fix go (l : list cls) (acc : list ty) (causes : list rerr) : result (list ty * list rerr) :=
-                       match l with
-                       | [] => Ok (acc, causes)
-                       | d :: r =>
-                           res <- rec_classes f n (c_name d) false ;;
-                           go r (ty_union acc (fst res)) (if is_nil (fst res) then causes ++ [snd res] else causes)
-                       end) (direct_subclasses reg c) [] [] ;;
+            subs <- rec_subs (fun d => rec_classes f n d false) (direct_subclasses reg c) [] [] ;;
             (* fall back to the class itself when no subclass matched and it is concrete *)
             own <- (if is_nil (fst subs) && negb (c_abstract k) then
                       res <- rec_class o (recognize f) k n ;;
